@@ -9,8 +9,8 @@ const char *CHK_RULE = "one case = one table (write target with/without variable
                        "writes, read/test requests and events; capacities 6..128, shared and separate buffers; non-trivial = a write line whose argument length is within 2 of "
                        "the capacity, or a read/test handler call compared with its twin; distinct by (capacity, argument length, kind, FSM)";
 
-static struct { int ci, kind, fsm; uint8_t data[512]; size_t size, max, argsn; bool nul_ok; size_t slen; } hc[8]; static int nhc;
-static int nvcb; static bool two_pass;
+static struct { int ci, kind, fsm; uint8_t data[4200]; size_t size, max, argsn; bool nul_ok; size_t slen; } hc[8]; static int nhc;
+static int nvcb; static bool two_pass; static unsigned noise_pm;
 static cat_return_state policy(struct hcall *h)
 {
         if (nhc < 8) {
@@ -74,6 +74,8 @@ static void build(size_t cap, bool shared, size_t ucap)
         a[4].description = a[3].description;
         a[5].name = xstr("+N"); a[5].read = h_read; a[5].test = h_test; a[6].name = xstr("+M");
         { struct cat_variable *v = w_vars(&a[5], 1), *w = w_vars(&a[6], 1); v->type = CAT_VAR_UINT_DEC; v->access = CAT_VAR_ACCESS_WRITE_ONLY; w_vdata(v, 2); *w = *v; }
+        if (chance(25)) w_noise_group(40 + rn(100));
+        noise_pm = NOISE_PM;
         w_buffers(shared ? cap * 2 + rn(2) : cap, shared, ucap);
         w_init((int)rn(2));
         POLICY = policy; VPOLICY = vpolicy; ON_UNIT = on_unit;
@@ -83,7 +85,8 @@ static void build(size_t cap, bool shared, size_t ucap)
 /* ---- write lines ---- */
 static void write_line(int target /*0 +W,1 +V,2 D*/, size_t want_len, bool lower)
 {
-        static uint8_t args[4096], sent[4096]; size_t n = 0, ns = 0;
+        static uint8_t args[4200], sent[8600]; size_t n = 0, ns = 0;
+        if (want_len > 4100) want_len = 4100;
         in_reset();
         static const char *pre[3] = { "AT+W=", "AT+V=", "ATD" }, *prel[3] = { "at+w=", "at+v=", "atd" };
         in_puts(lower ? prel[target] : pre[target]);
@@ -99,6 +102,7 @@ static void write_line(int target /*0 +W,1 +V,2 D*/, size_t want_len, bool lower
         for (size_t i = 0; i < n; i++) { if (chance(4)) sent[ns++] = '\r'; sent[ns++] = args[i]; }
         if (chance(20)) sent[ns++] = '\r';
         in_put(sent, ns); in_putc('\n');
+        NOISE_PM = noise_pm;
         snprintf(note, sizeof note, "write line to target %d, %zu argument bytes (CRs not counted), command capacity %zu", target, n, W.capA);
         if (!run_line()) { inconclusive("no quiescence (C15's subject)"); return; }
         bool fits = n < W.capA;
@@ -126,6 +130,7 @@ static void write_line(int target /*0 +W,1 +V,2 D*/, size_t want_len, bool lower
 /* ---- read / test handlers vs twin ---- */
 static void rt_pair(int kind, int fsm, int base /*3 or 5*/)
 {
+        NOISE_PM = 0;         /* the twin comparison reads the first unit of a run: no background events here */
         const char *hn = W.cmd[base]->name, *tn = W.cmd[base + 1]->name;
         char twin[300] = ""; bool twin_ok = false;
         /* twin first */
@@ -180,7 +185,8 @@ void chk_run_case(uint64_t seed, long c, bool is_sweep)
 {
         (void)seed; note[0] = 0;
         size_t cap; bool shared;
-        if (is_sweep) { cap = 6 + (size_t)(c / 2); shared = c & 1; } else { cap = 6 + rn(chance(60) ? 40 : 123); shared = chance(50); }
+        if (is_sweep) { cap = 6 + (size_t)(c / 2); shared = c & 1; }
+        else { cap = chance(85) ? 6 + rn(chance(60) ? 40 : 123) : chance(60) ? 250 + rn(13) : (size_t[]){ 300, 511, 512, 513, 1000, 1300 }[rn(6)]; shared = chance(50); }      /* also capacities around 2^8 and beyond: length counters must not wrap */
         build(cap, shared, rn(3) == 0 ? rn(12) : 8 + rn(100));
         /* every boundary length for the three write targets */
         static const long D[] = { -2, -1, 0, 1 };
